@@ -67,6 +67,7 @@ func runC18(c *Ctx) {
 	ruleNoArithmeticOnStatementInts(c, "C18.9")
 	ruleReflectNil(c, "C18.10", "engine", "storage")
 	ruleSessionStateMovesTogether(c, "C18.11")
+	ruleCatalogNotATarget(c, "C18.12")
 }
 
 func c18PanicSources(c *Ctx, rule string) {
